@@ -1,4 +1,5 @@
 SPECIFICATION GSpec
+CONSTANT MODES = {"consult", "assertz"}
 CHECK_DEADLOCK FALSE
 INVARIANT Emit
 CONSTRAINT Bound
